@@ -26,6 +26,7 @@ EXPLANATION = (
     ' Round 4: presence of a scalar record member is not decided by its truthiness; a loop over fixed member names examines every name; (D6) savers, loaders and record converters keep no module-level state and store nothing on their arguments.'
     ' Round 5: save_list stores the list as given; optional members are not splatted positionally from a filtered sequence; (D7) the operator reader re-assembles through simplify(), decided by C03-D5.'
     " Round 6: the sum parser's text rewriting (re.sub / replace before the split) is replayed on printed sums covering every shape repr() gives a coefficient below 1e15, exponent notation included (D3); every path of Measurements.save writes each bit as int unless a test looked at every bit of every shot (D4); presence of optional list members (frames) is decided with `is not None` on both the writer and the reader side -- an empty list of frames is data (D5; defect repaired in /repo ba502eb); (D8) stale loop variables."
+    ' Round 7: optional numbers on the writer side (D5); functools caches on printers / parsers / savers (D6).'
 )
 RULE_TEXT = "instances = record keys per saver/loader pair, loaders, printer tokens, slots; distinct by (rule, construct)"
 ASSUMPTIONS = [
